@@ -225,6 +225,10 @@ pub fn parse_file(
     Ok(context.as_parse_result())
 }
 
+/// Longest source file that is read (a completely filled 8 MiB flash written as `.db` lines of
+/// eight bytes stays below)
+const MAX_SOURCE_FILE_LENGTH: u64 = 64 << 20;
+
 pub fn parse_file_internal(context: &ParseContext) -> Result<(), Error> {
     let ParseContext {
         current_path,
@@ -284,12 +288,24 @@ pub fn parse_file_internal(context: &ParseContext) -> Result<(), Error> {
         }
     }
 
+    // what is opened need not be a file with an end (`.include "/dev/zero"`)
     let mut source = String::new();
-    if let Err(err) = file.read_to_string(&mut source) {
+    if let Err(err) = file
+        .by_ref()
+        .take(MAX_SOURCE_FILE_LENGTH + 1)
+        .read_to_string(&mut source)
+    {
         bail!(
             "Cannot read file {} because: {}",
             current_path.to_string_lossy(),
             err
+        );
+    }
+    if source.len() as u64 > MAX_SOURCE_FILE_LENGTH {
+        bail!(
+            "Cannot read file {} because: it is longer than {} bytes",
+            current_path.to_string_lossy(),
+            MAX_SOURCE_FILE_LENGTH
         );
     }
 
